@@ -110,3 +110,5 @@ macro_rules! payload {
 payload!(A, repr(C), 0);
 // B: 32 bytes, align 16 (over-aligned: data offset 16, padding after the count)
 payload!(B, repr(C, align(16)), 17);
+// E: element type of the header-slice family (16 bytes, align 4)
+payload!(E, repr(C), 4);
